@@ -1794,12 +1794,41 @@ func genChunks(r *lib.Rng, c *Case, st *Step, order int) []Chunk {
 			fragChunks = append(fragChunks, Chunk{Frags: []Frag{f}})
 		}
 	}
-	// several fragments in one chunk — of different calls only: a chunk that carries two
-	// fragments of the same call is not something a model emits, and a message streamed as
+	// round 9: a message with several calls has, one time in three, the fragments of its calls arrive INTERLEAVED
+	// (each call's own fragments in their order) and - half of these - a call with a higher index opened before
+	// the call with the lowest: the index, not the order of arrival, says where a call belongs (concatToolCalls
+	// sorts by it), so Stream must still see the calls as Generate does.  The draws come from a fork of the
+	// generator, so the other cases of a seed stay what they were.
+	if len(st.Calls) >= 2 {
+		if fr := r.Fork(0xC18A); fr.Chance(1, 3) {
+			var queues [][]Chunk
+			for _, fc := range fragChunks {
+				if n := len(queues); n > 0 && queues[n-1][0].Frags[0].Index == fc.Frags[0].Index {
+					queues[n-1] = append(queues[n-1], fc)
+				} else {
+					queues = append(queues, []Chunk{fc})
+				}
+			}
+			fragChunks = fragChunks[:0:0]
+			first := fr.Chance(1, 2)
+			for len(queues) > 0 {
+				q := fr.Intn(len(queues))
+				if first {
+					q, first = 1+fr.Intn(len(queues)-1), false
+				}
+				fragChunks = append(fragChunks, queues[q][0])
+				if queues[q] = queues[q][1:]; len(queues[q]) == 0 {
+					queues = append(queues[:q], queues[q+1:]...)
+				}
+			}
+		}
+	}
+	// several fragments in one chunk — of different calls only and in index order: a chunk that carries
+	// two fragments of the same call is not something a model emits, and a message streamed as
 	// that single chunk is handed on unmerged (ConcatMessageStream returns a lone chunk as is)
 	for i := 0; i+1 < len(fragChunks); i++ {
 		a, b := fragChunks[i].Frags, fragChunks[i+1].Frags
-		if a[len(a)-1].Index != b[0].Index && r.Chance(1, 3) {
+		if a[len(a)-1].Index < b[0].Index && r.Chance(1, 3) {
 			fragChunks[i].Frags = append(a, b...)
 			fragChunks = append(fragChunks[:i+1], fragChunks[i+2:]...)
 		}
